@@ -262,7 +262,12 @@ fn run_and_judge(prop: &str, tier: &str, seed: u64, lines: &[String], fixed: &[O
 }
 
 fn main() {
-    panic::set_hook(Box::new(|_| {}));
+    // silent by default (ops are expected to panic under seeded changes); VH_PANIC_MSG=1 prints where a panic came from
+    if std::env::var("VH_PANIC_MSG").is_ok() {
+        panic::set_hook(Box::new(|i| eprintln!("panic: {i}")));
+    } else {
+        panic::set_hook(Box::new(|_| {}));
+    }
     let args: Vec<String> = std::env::args().collect();
     if args.len() < 2 {
         eprintln!("usage: vh run|exec ...");
